@@ -717,6 +717,15 @@ def _primitives(c, prog):
     c.inst("R7.with-size", "compact size of the length, then the bytes, nothing else",
            e == [("<encode::VarInt as encode::Encodable>::consensus_encode", ["encode::VarInt::VarInt{(core::slice::len(arg1) as u64)}", "arg2"]), ("ext::WriteExt::emit_slice", ["arg2", "arg1"])],
            "effects %s" % e, f.where(), f.path)
+    # encoders that are "the bytes with their length": exactly one unconditional call of the helper on the whole byte view
+    WS = {"<bitcoin::ScriptBuf as encode::Encodable>::consensus_encode": "bitcoin::Script::as_bytes(bitcoin::ScriptBuf::as_script(arg1))",
+          "<sighash::Annex<'_> as encode::Encodable>::consensus_encode": "arg1.0"}
+    for fnp, view in WS.items():
+        f = prog.fn(fnp)
+        r = ret(f).replace("sighash::Annex::as_bytes(arg1)", "arg1.0").replace("bitcoin::ScriptBuf::as_bytes(arg1)", view)
+        c.inst("R7.with-size-user", fnp.split(" as ")[0].lstrip("<"), r == "encode::consensus_encode_with_size(%s, arg2)" % view,
+               "returns %s" % r[:200], f.where(), fnp)
+    c.floor("R7.with-size-user", 2)
     for fnp in sorted(prog.fns):
         m = re.match(r"^<\[u8; (\d+)\] as encode::(Encodable|Decodable)>::consensus_(en|de)code$", fnp)
         if not m:
